@@ -206,6 +206,10 @@ def run(ck):
     import importlib as _il8
     _m8 = lambda n: _il8.import_module('props.' + n)
     _c8.import_results(ck, _m8("C16"), "3", "Generic", "6")  # every re-registration draws its sub-token and hands it to the poller (no unchanged-registration shortcut keeps an old sub-id)
+    # ---- shared clause demonstrated by the twin round (seeding round 10) ---------------------------------------------
+    from props import common as _c10
+    import importlib as _il10
+    _c10.import_results(ck, _il10.import_module("props.C01"), "1", "same_source_as", "6")  # a sub-token belongs to its source: same_source_as compares id and generation, whatever the sub-ids
 
 
 def coverage_extra(checks):
@@ -323,7 +327,7 @@ def exhaustive_increment_sub_id(facts, body):
     return ""
 
 
-def semantic_token_equality(facts, body, fields):
+def semantic_token_equality(facts, body, fields, want=None):
     """"" if the equality function answers `true` exactly for the all-fields-equal pattern, on every one of the 2^n
     equal/different patterns of the fields (several base values; a differing field differs in its lowest or in its
     highest bit), a counterexample otherwise. Only attempted when integers flow into nothing but `==` / `!=` in the
@@ -370,10 +374,13 @@ def semantic_token_equality(facts, body, fields):
             for pat in itertools.product((False, True), repeat=n):
                 for hi in (False, True):
                     b = [x ^ ((1 << (widths[i] - 1)) if hi else 1) if pat[i] else x for i, x in enumerate(a)]
-                    want = int(not any(pat))
+                    want_ = int(not any(pat)) if want is None else int(want(dict(zip(fields, pat))))
                     for l, r in ((a, b), (b, a)):
-                        if m.run(body, [("struct", list(l)), ("struct", list(r))]) != want:
+                        got = m.run(body, [("struct", list(l)), ("struct", list(r))])
+                        if got != want_:
                             diff = [fields[i] for i in range(n) if pat[i]]
+                            if want is not None:
+                                return "for %s vs %s (differing in %s) the answer is %s, expected %s" % (dict(zip(fields, l)), dict(zip(fields, r)), diff or "nothing", bool(got), bool(want_))
                             return ("tokens that differ only in %s compare equal" % diff) if diff else ("%s is not equal to itself" % dict(zip(fields, a)))
     except (CE.Unsupported, CE.Panic):
         return None
